@@ -128,6 +128,15 @@ func (p *PowerBasis) genPower(n int, lazy, rescale bool, eval schemes.Evaluator)
 
 		} else {
 
+			// Powers left non-relinearized by an earlier lazy generation are relinearized before being multiplied.
+			for _, k := range []int{a, b} {
+				if p.Value[k].Degree() == 2 {
+					if err = eval.Relinearize(p.Value[k], p.Value[k]); err != nil {
+						return false, fmt.Errorf("genpower: eval.Relinearize(p.Value[%d], p.Value[%d]): %w", k, k, err)
+					}
+				}
+			}
+
 			if rescaleA {
 				if err = eval.Rescale(p.Value[a], p.Value[a]); err != nil {
 					return false, fmt.Errorf("genpower: rescale[a]: p.Value[%d]: %w", a, err)
